@@ -1,6 +1,10 @@
 //! One module per property: case decoder + oracle + classifier.
 use crate::engine::Spec;
 
+pub mod exec_common;
+
+pub mod c05;
+pub mod c07;
 pub mod c10;
 pub mod c11;
 pub mod c13;
@@ -8,7 +12,7 @@ pub mod c18;
 pub mod c19;
 
 pub fn all() -> Vec<&'static Spec> {
-    vec![&c10::SPEC, &c11::SPEC, &c13::SPEC, &c18::SPEC, &c19::SPEC]
+    vec![&c05::SPEC, &c07::SPEC, &c10::SPEC, &c11::SPEC, &c13::SPEC, &c18::SPEC, &c19::SPEC]
 }
 
 pub fn find(id: &str) -> Option<&'static Spec> {
